@@ -254,13 +254,14 @@ theorem chunkStep_same {P : Params} {name : String} {total : Nat} {first : Bool}
   simp only [chunkStep, h, Bool.false_eq_true, if_false, mkEnt]
 
 theorem chunkStep_spec (P : Params) (name : String) (total : Nat) (first : Bool) (written : Nat)
-    (ch : Bytes) (w : W) (loc : Loc) (hinv : Inv w) (hl : LInv P w loc) (hopen : w.cur.isSome) :
+    (ch : Bytes) (w : W) (loc : Loc) (s : Prop) (hinv : Inv w) (hl : s → LInv P w loc)
+    (hopen : w.cur.isSome) :
     ∃ w' loc' e, chunkStep P name total first written ch w loc = (w', loc') ∧
-      Tr w w' ch ∧ LInv P w' loc' ∧ w'.cur.isSome ∧
+      Tr w w' ch ∧ (s → LInv P w' loc') ∧ w'.cur.isSome ∧
       w'.toc = w.toc ++ [e] ∧ e.name = name ∧
       e.typ = (if first then Kind.reg else Kind.chunk) ∧ e.size = (if first then total else 0) ∧
       e.chunkOffset = written ∧ e.chunkSize = (if total - written < P.chunk then 0 else P.chunk) ∧
-      Good w'.view e ch := by
+      (s → Good w'.view e ch) := by
   cases hb : bndCond P name first w loc with
   | true =>
     rw [chunkStep_bnd hb]
@@ -283,12 +284,14 @@ theorem chunkStep_spec (P : Params) (name : String) (total : Nat) (first : Bool)
       · simp only [W.view, flushGz, closeGz, condOpenGz, write, pushToc, Option.toList_some]
         exact Ext.trans (Ext.snoc closed m ⟨m.payload, m.clen + orcF.headD 0 + orcC.headD 0 + 1⟩ (List.prefix_refl _)) (Ext.append _ _)
       · simp [W.view, flushGz, closeGz, condOpenGz, write, pushToc]
-      · right
+      · intro _
+        right
         simp [flushGz, closeGz, condOpenGz, write, pushToc]
         omega
       · simp [flushGz, closeGz, condOpenGz, write, pushToc]
       · simp [flushGz, closeGz, condOpenGz, write, pushToc]
-      · simp only [W.view, flushGz, closeGz, condOpenGz, write, pushToc, Option.toList_some, mkEnt]
+      · intro _
+        simp only [W.view, flushGz, closeGz, condOpenGz, write, pushToc, Option.toList_some, mkEnt]
         refine ⟨closed ++ [⟨m.payload, m.clen + orcF.headD 0 + orcC.headD 0 + 1⟩], ⟨[] ++ ch, 0⟩, [], by simp, ?_, by simp⟩
         simp [h1]; omega
   | false =>
@@ -303,8 +306,9 @@ theorem chunkStep_spec (P : Params) (name : String) (total : Nat) (first : Bool)
       have hmin : P.minChunk ≠ 0 := by
         intro h0
         simp [bndCond, h0] at hb
-      have hl' : sumClen closed = loc.prevOff ∧ m.payload.length + loc.prevOffUnc = uncN := by
-        rcases hl with hl | hl
+      have hl' : s → sumClen closed = loc.prevOff ∧ m.payload.length + loc.prevOffUnc = uncN := by
+        intro hs
+        rcases hl hs with hl | hl
         · exact absurd hl hmin
         · simpa using hl
       refine ⟨⟨⟨?_, ?_, ?_, ?_⟩, ?_, ?_⟩, ?_, ?_, ?_, rfl, rfl, rfl, rfl, rfl, ?_⟩
@@ -315,14 +319,920 @@ theorem chunkStep_spec (P : Params) (name : String) (total : Nat) (first : Bool)
       · simp only [W.view, flushGz, closeGz, condOpenGz, write, pushToc, Option.toList_some]
         exact Ext.snoc _ _ _ (List.prefix_append _ _)
       · simp [W.view, flushGz, closeGz, condOpenGz, write, pushToc]
-      · right
+      · intro hs
+        have hl' := hl' hs
+        right
         simp [flushGz, closeGz, condOpenGz, write, pushToc]
         omega
       · simp [flushGz, closeGz, condOpenGz, write, pushToc]
       · simp [flushGz, closeGz, condOpenGz, write, pushToc]
-      · simp only [W.view, flushGz, closeGz, condOpenGz, write, pushToc, Option.toList_some, mkEnt]
+      · intro hs
+        have hl' := hl' hs
+        simp only [W.view, flushGz, closeGz, condOpenGz, write, pushToc, Option.toList_some, mkEnt]
         refine ⟨closed, ⟨m.payload ++ ch, _⟩, [], rfl, hl'.1, ?_⟩
         have : uncN - loc.prevOffUnc = m.payload.length := by omega
         simp [this]
+
+
+/-- The TOC entries of one regular file: a `reg` entry first, then `chunk`s, all with the file's
+name, contiguous from `pos`, none empty, ending exactly at `total`. -/
+def Group (name : String) (total : Nat) : Bool → Nat → List TocEnt → Prop
+  | _, pos, [] => pos = total
+  | first, pos, e :: es =>
+    e.name = name ∧ e.typ = (if first then Kind.reg else Kind.chunk) ∧
+    e.size = (if first then total else 0) ∧ e.chunkOffset = pos ∧ 0 < effSize e total ∧
+    pos + effSize e total ≤ total ∧ Group name total false (pos + effSize e total) es
+
+theorem chunkLoop_spec (P : Params) (hc : 0 < P.chunk) (name : String) (data : Bytes) (s : Prop) :
+    ∀ (fuel : Nat) (rest : Bytes) (written : Nat) (first : Bool) (w : W) (loc : Loc),
+      Inv w → (s → LInv P w loc) → w.cur.isSome → rest = data.drop written → written ≤ data.length →
+      data.length - written ≤ fuel →
+      ∃ w' loc' g, chunkLoop P name data.length fuel rest written first w loc = (w', loc') ∧
+        Tr w w' rest ∧ (s → LInv P w' loc') ∧ w'.cur.isSome ∧ w'.toc = w.toc ++ g ∧
+        Group name data.length first written g ∧ ∀ e ∈ g, s → Good w'.view e (expect data e) := by
+  intro fuel
+  induction fuel with
+  | zero =>
+    intro rest written first w loc hinv hl hopen hrest hle hfuel
+    have hw : written = data.length := by omega
+    refine ⟨w, loc, [], rfl, ?_, hl, hopen, by simp, by simp [Group, hw], by simp⟩
+    subst hrest; rw [hw]; simpa using Tr.rfl' hinv
+  | succ fuel ih =>
+    intro rest written first w loc hinv hl hopen hrest hle hfuel
+    unfold chunkLoop
+    by_cases hlt : written < data.length
+    · simp only [hlt, if_true]
+      generalize hn : (if data.length - written < P.chunk then data.length - written else P.chunk) = n
+      have hn0 : 0 < n := by subst hn; split <;> omega
+      have hnle : written + n ≤ data.length := by subst hn; split <;> omega
+      obtain ⟨w1, loc1, e, hstep, htr1, hl1, hopen1, htoc1, hname, htyp, hsize, hco, hcs, hgood⟩ :=
+        chunkStep_spec P name data.length first written (rest.take n) w loc s hinv hl hopen
+      rw [hstep]
+      have hrest' : rest.drop n = data.drop (written + n) := by
+        subst hrest; rw [List.drop_drop]
+      obtain ⟨w', loc', g, hloop, htr, hl', hopen', htoc', hgrp, hgoods⟩ :=
+        ih (rest.drop n) (written + n) false w1 loc1 htr1.inv hl1 hopen1 hrest' hnle (by omega)
+      have heff : effSize e data.length = n := by
+        unfold effSize
+        rw [hcs, hco]
+        subst hn
+        by_cases h1 : data.length - written < P.chunk
+        · simp [h1]
+        · simp only [h1, if_false]
+          have : P.chunk ≠ 0 := by omega
+          simp [this]
+      refine ⟨w', loc', e :: g, hloop, ?_, hl', hopen', ?_, ?_, ?_⟩
+      · have := Tr.trans htr1 htr
+        rwa [List.take_append_drop] at this
+      · rw [htoc', htoc1]; simp
+      · simp only [Group]
+        refine ⟨hname, htyp, hsize, hco, ?_, ?_, ?_⟩
+        · omega
+        · omega
+        · rw [heff]; exact hgrp
+      · intro e' he' hs
+        simp at he'
+        rcases he' with rfl | he'
+        · have hexp : expect data e' = rest.take n := by
+            unfold expect
+            rw [heff, hco, hrest]
+          rw [hexp]
+          exact Good.mono (hgood hs) htr.ext
+        · exact hgoods e' he' hs
+    · simp only [hlt, if_false]
+      have hw : written = data.length := by omega
+      refine ⟨w, loc, [], rfl, ?_, hl, hopen, by simp, by simp [Group, hw], by simp⟩
+      subst hrest; rw [hw]; simpa using Tr.rfl' hinv
+
+
+/-! ## Entries -/
+
+theorem linv_write {P : Params} {w : W} {loc : Loc} (hinv : Inv w) (hl : LInv P w loc) (p : Bytes) :
+    LInv P (write w p) loc := by
+  rcases hl with hl | hl
+  · exact Or.inl hl
+  · right
+    obtain ⟨closed, cur, cwN, uncN, toc, hashed, orcF, orcC⟩ := w
+    obtain ⟨h1, h2, h3, h4⟩ := hinv
+    cases cur with
+    | none =>
+      simp [W.view] at h1 h2 h3 h4 hl
+      simp [write]
+      omega
+    | some m =>
+      simp [W.view] at h1 h2 h3 h4 hl
+      simp [write]
+      omega
+
+theorem linv_condOpenGz {P : Params} {w : W} {loc : Loc} (hinv : Inv w) (hl : LInv P w loc) :
+    LInv P (condOpenGz w) loc := by
+  rcases hl with hl | hl
+  · exact Or.inl hl
+  · right
+    obtain ⟨closed, cur, cwN, uncN, toc, hashed, orcF, orcC⟩ := w
+    obtain ⟨h1, h2, h3, h4⟩ := hinv
+    cases cur with
+    | none =>
+      simp [W.view] at h1 h2 h3 h4 hl
+      simp [condOpenGz]
+      omega
+    | some m => simpa [condOpenGz] using hl
+
+theorem linv_pushToc {P : Params} {w : W} {loc : Loc} (hl : LInv P w loc) (e : TocEnt) :
+    LInv P (pushToc w e) loc := hl
+
+theorem write_cur (w : W) (p : Bytes) : (write w p).cur.isSome := by
+  unfold write
+  cases hc : w.cur <;> simp
+
+theorem write_toc (w : W) (p : Bytes) : (write w p).toc = w.toc := by
+  unfold write
+  cases hc : w.cur <;> simp
+
+theorem condOpenGz_toc (w : W) : (condOpenGz w).toc = w.toc := by
+  unfold condOpenGz
+  cases hc : w.cur <;> simp
+
+theorem pushToc_tr {w w' : W} {bs : Bytes} (h : Tr w w' bs) (e : TocEnt) : Tr w (pushToc w' e) bs :=
+  ⟨⟨h.inv.cw, h.inv.unc, h.inv.pos, h.inv.hash⟩, h.ext, h.stream⟩
+
+/-- The bytes one (non-skipped) entry contributes to the uncompressed stream. -/
+def entBytes (e : TarEnt) : Bytes := e.pre ++ ((if e.typ = .reg then e.data else []) ++ e.post)
+
+/-- The TOC entries one (non-skipped) tar entry produces. -/
+def EntryToc (e : TarEnt) (g : List TocEnt) : Prop :=
+  supported e.typ = true ∧
+  if e.typ = .reg ∧ e.data ≠ [] then Group e.name e.data.length true 0 g
+  else g = [⟨e.name, e.typ, 0, 0, 0, 0, 0⟩]
+
+theorem group_bounds {name : String} {total : Nat} :
+    ∀ {first : Bool} {pos : Nat} {g : List TocEnt}, Group name total first pos g →
+      ∀ x ∈ g, x.name = name ∧ x.isData = true ∧ 0 < effSize x total ∧ x.chunkOffset + effSize x total ≤ total := by
+  intro first pos g
+  induction g generalizing first pos with
+  | nil => intro _ x hx; simp at hx
+  | cons e es ih =>
+    intro hg x hx
+    simp only [Group] at hg
+    obtain ⟨h1, h2, h3, h4, h5, h6, h7⟩ := hg
+    simp at hx
+    rcases hx with rfl | hx
+    · refine ⟨h1, ?_, h5, by omega⟩
+      unfold TocEnt.isData
+      cases first
+      · simp at h2; simp [h2]
+      · simp at h2 h3
+        have : 0 < total := by omega
+        simp [h2, h3, this]
+    · exact ih h7 x hx
+
+theorem appendEntry_spec (P : Params) (hc : 0 < P.chunk) (w : W) (loc : Loc) (e : TarEnt)
+    (w' : W) (loc' : Loc) (s : Prop) (hinv : Inv w) (hl : s → LInv P w loc)
+    (h : appendEntry P (w, loc) e = some (w', loc')) :
+    (e.isToc = true ∧ w' = w ∧ loc' = loc ∧ P.lossless = false) ∨
+    (e.isToc = false ∧ supported e.typ = true ∧ Tr w w' (entBytes e) ∧ (s → LInv P w' loc') ∧
+      ∃ g, w'.toc = w.toc ++ g ∧ EntryToc e g ∧
+        ∀ x ∈ g, x.isData = true → e.typ = .reg ∧ x.name = e.name ∧ (s → Good w'.view x (expect e.data x)) ∧
+          0 < effSize x e.data.length ∧ x.chunkOffset + effSize x e.data.length ≤ e.data.length) := by
+  unfold appendEntry at h
+  by_cases htoc : e.isToc = true
+  · left
+    simp only [htoc, if_true] at h
+    by_cases hll : P.lossless = true
+    · simp [hll] at h
+    · simp only [hll] at h
+      simp at h
+      simp at hll
+      exact ⟨htoc, h.1.symm, h.2.symm, hll⟩
+  · right
+    simp only [htoc] at h
+    simp only [Bool.false_eq_true, if_false] at h
+    by_cases hsup : supported e.typ = false
+    · simp [hsup] at h
+    · simp only [hsup, if_false] at h
+      have htr0 : Tr w (write (condOpenGz w) e.pre) e.pre := by
+        have := Tr.trans (condOpenGz_tr hinv) (write_tr (condOpenGz_tr hinv).inv e.pre)
+        simpa using this
+      have hl0 : s → LInv P (write (condOpenGz w) e.pre) loc :=
+        fun hs => linv_write (condOpenGz_tr hinv).inv (linv_condOpenGz hinv (hl hs)) e.pre
+      have hopen0 := write_cur (condOpenGz w) e.pre
+      refine ⟨by simpa using htoc, by simpa using hsup, ?_⟩
+      by_cases hreg : e.typ = .reg ∧ e.data ≠ []
+      · simp only [hreg, ne_eq, not_false_eq_true, and_self, if_true] at h
+        obtain ⟨w2, loc2, g, hloop, htr, hl2, hopen2, htoc2, hgrp, hgoods⟩ :=
+          chunkLoop_spec P hc e.name e.data s (e.data.length + 1) e.data 0 true _ loc htr0.inv hl0 hopen0
+            (by simp) (by omega) (by omega)
+        rw [hloop] at h
+        simp at h
+        obtain ⟨hw', hloc'⟩ := h
+        subst hw' hloc'
+        have htr3 := write_tr htr.inv e.post
+        refine ⟨?_, fun hs => linv_write htr.inv (hl2 hs) e.post, g, ?_, ?_, ?_⟩
+        · have := Tr.trans (Tr.trans htr0 htr) htr3
+          simpa [entBytes, hreg.1] using this
+        · rw [write_toc, htoc2, write_toc, condOpenGz_toc]
+        · exact ⟨by simpa using hsup, by simp [hreg, hgrp]⟩
+        · intro x hx _
+          obtain ⟨hn, _, hp, hb⟩ := group_bounds hgrp x hx
+          exact ⟨hreg.1, hn, fun hs => Good.mono (hgoods x hx hs) htr3.ext, hp, by simpa using hb⟩
+      · simp only [hreg, if_false] at h
+        simp at h
+        obtain ⟨hw', hloc'⟩ := h
+        subst hw' hloc'
+        have htr1 := pushToc_tr htr0 ⟨e.name, e.typ, 0, 0, 0, 0, 0⟩
+        have htr3 := write_tr htr1.inv e.post
+        refine ⟨?_, fun hs => linv_write htr1.inv (linv_pushToc (hl0 hs) _) e.post, [⟨e.name, e.typ, 0, 0, 0, 0, 0⟩], ?_, ?_, ?_⟩
+        · have := Tr.trans htr1 htr3
+          have hd : (if e.typ = .reg then e.data else []) = [] := by
+            by_cases h1 : e.typ = .reg
+            · have : e.data = [] := by
+                by_cases h2 : e.data = []
+                · exact h2
+                · exact absurd ⟨h1, h2⟩ hreg
+              simp [h1, this]
+            · simp [h1]
+          simpa [entBytes, hd] using this
+        · rw [write_toc]; simp [pushToc, write_toc, condOpenGz_toc]
+        · exact ⟨by simpa using hsup, by simp [hreg]⟩
+        · intro x hx hd
+          simp at hx
+          subst hx
+          exfalso
+          unfold TocEnt.isData at hd
+          simp at hd
+          cases hk : e.typ <;> simp_all [supported]
+
+
+/-- Entries that reach the output (an input entry named like the TOC is dropped). -/
+def keep (es : List TarEnt) : List TarEnt := es.filter (fun e => !e.isToc)
+
+/-- The uncompressed stream the entries produce. -/
+def tarStream (es : List TarEnt) : Bytes := (keep es).flatMap entBytes
+
+@[simp] theorem keep_nil : keep [] = [] := rfl
+theorem keep_cons_toc {e : TarEnt} {es : List TarEnt} (h : e.isToc = true) : keep (e :: es) = keep es := by
+  simp [keep, h]
+theorem keep_cons_keep {e : TarEnt} {es : List TarEnt} (h : e.isToc = false) : keep (e :: es) = e :: keep es := by
+  simp [keep, h]
+theorem keep_append (a b : List TarEnt) : keep (a ++ b) = keep a ++ keep b := by simp [keep]
+theorem tarStream_append (a b : List TarEnt) : tarStream (a ++ b) = tarStream a ++ tarStream b := by
+  simp [tarStream, keep_append]
+
+/-- Pointwise relation between two lists of the same length (core has no `Forall₂`). -/
+inductive Forall2 {α β : Type} (R : α → β → Prop) : List α → List β → Prop
+  | nil : Forall2 R [] []
+  | cons {a b as bs} : R a b → Forall2 R as bs → Forall2 R (a :: as) (b :: bs)
+
+/-- Every data entry of `toc` reads, by the documented rule, its range of the content of a
+regular file among `src` carrying its name. -/
+def AllGood (ms : List Member) (src : List TarEnt) (toc : List TocEnt) : Prop :=
+  ∀ x ∈ toc, x.isData = true → ∃ e ∈ src, e.isToc = false ∧ e.typ = .reg ∧ x.name = e.name ∧
+    Good ms x (expect e.data x) ∧ 0 < effSize x e.data.length ∧
+    x.chunkOffset + effSize x e.data.length ≤ e.data.length
+
+theorem AllGood.mono {ms ms' : List Member} {src src' : List TarEnt} {toc : List TocEnt}
+    (h : AllGood ms src toc) (hx : Ext ms ms') (hs : ∀ e ∈ src, e ∈ src') : AllGood ms' src' toc := by
+  intro x hx' hd
+  obtain ⟨e, he, h1, h2, h3, h4, h5⟩ := h x hx' hd
+  exact ⟨e, hs e he, h1, h2, h3, Good.mono h4 hx, h5⟩
+
+theorem AllGood.append {ms : List Member} {src : List TarEnt} {a b : List TocEnt}
+    (ha : AllGood ms src a) (hb : AllGood ms src b) : AllGood ms src (a ++ b) := by
+  intro x hx hd
+  simp at hx
+  rcases hx with hx | hx
+  · exact ha x hx hd
+  · exact hb x hx hd
+
+theorem appendEntries_spec (P : Params) (hc : 0 < P.chunk) (s : Prop) :
+    ∀ (es : List TarEnt) (w : W) (loc : Loc) (w' : W) (loc' : Loc), Inv w → (s → LInv P w loc) →
+      appendEntries P (w, loc) es = some (w', loc') →
+      Tr w w' (tarStream es) ∧ (s → LInv P w' loc') ∧
+      (P.lossless = true → ∀ e ∈ es, e.isToc = false) ∧
+      ∃ gs, w'.toc = w.toc ++ gs.flatten ∧ Forall2 EntryToc (keep es) gs ∧
+        (s → AllGood w'.view es gs.flatten) := by
+  intro es
+  induction es with
+  | nil =>
+    intro w loc w' loc' hinv hl h
+    simp [appendEntries] at h
+    obtain ⟨rfl, rfl⟩ := h
+    refine ⟨by simpa [tarStream] using Tr.rfl' hinv, hl, by simp, [], by simp, Forall2.nil, ?_⟩
+    intro _ x hx; simp at hx
+  | cons e es ih =>
+    intro w loc w' loc' hinv hl h
+    simp only [appendEntries] at h
+    cases h1 : appendEntry P (w, loc) e with
+    | none => simp [h1] at h
+    | some st1 =>
+      obtain ⟨w1, loc1⟩ := st1
+      simp only [h1] at h
+      rcases appendEntry_spec P hc w loc e w1 loc1 s hinv hl h1 with
+        ⟨htoc, rfl, rfl, hll⟩ | ⟨htoc, _, htr1, hl1, g, htoc1, hent, hgood1⟩
+      · obtain ⟨htr, hl', hlos, gs, htoc', hfa, hag⟩ := ih w1 loc1 w' loc' hinv hl h
+        refine ⟨?_, hl', ?_, gs, htoc', ?_, ?_⟩
+        · simpa [tarStream, keep_cons_toc htoc] using htr
+        · intro h; simp [hll] at h
+        · simpa [keep_cons_toc htoc] using hfa
+        · exact fun hs => (hag hs).mono (Ext.refl _) (fun x hx => List.mem_cons_of_mem _ hx)
+      · obtain ⟨htr, hl', hlos, gs, htoc', hfa, hag⟩ := ih w1 loc1 w' loc' htr1.inv hl1 h
+        refine ⟨?_, hl', ?_, g :: gs, ?_, ?_, ?_⟩
+        · have := Tr.trans htr1 htr
+          simpa [tarStream, keep_cons_keep htoc] using this
+        · intro h x hx
+          simp at hx
+          rcases hx with rfl | hx
+          · exact htoc
+          · exact hlos h x hx
+        · rw [htoc', htoc1]; simp
+        · rw [keep_cons_keep htoc]
+          exact Forall2.cons hent hfa
+        · intro hs
+          simp only [List.flatten_cons]
+          apply AllGood.append
+          · intro x hx hd
+            obtain ⟨a1, a2, a3, a4, a5⟩ := hgood1 x hx hd
+            exact ⟨e, by simp, htoc, a1, a2, Good.mono (a3 hs) htr.ext, a4, a5⟩
+          · exact (hag hs).mono (Ext.refl _) (fun x hx => List.mem_cons_of_mem _ hx)
+
+
+/-! ## appendTar, Close -/
+
+def lossTail (P : Params) (tail : Bytes) : Bytes := if P.lossless then tail else []
+
+/-- When may `appendTar` start on `w`: its two fresh locals are right (`MinChunkSize = 0`: they
+are never read; otherwise nothing was written yet). -/
+def StartOK (P : Params) (w : W) : Prop := P.minChunk = 0 ∨ (w.cur = none ∧ w.uncN = 0)
+
+theorem startOK_linv {P : Params} {w : W} (h : StartOK P w) : LInv P w ⟨w.cwN, 0⟩ := by
+  rcases h with h | ⟨h1, h2⟩
+  · exact Or.inl h
+  · right; simp [h1, h2]
+
+theorem appendTar_spec (P : Params) (hc : 0 < P.chunk) (w w' : W) (ents : List TarEnt) (tail : Bytes)
+    (s : Prop) (hinv : Inv w) (hs : s → StartOK P w) (h : appendTar P w ents tail = some w') :
+    Tr w w' (tarStream ents ++ lossTail P tail) ∧
+    (P.lossless = true → ∀ e ∈ ents, e.isToc = false) ∧
+    ∃ gs, w'.toc = w.toc ++ gs.flatten ∧ Forall2 EntryToc (keep ents) gs ∧
+      (s → AllGood w'.view ents gs.flatten) := by
+  unfold appendTar at h
+  cases h1 : appendEntries P (w, ⟨w.cwN, 0⟩) ents with
+  | none => simp [h1] at h
+  | some st =>
+    obtain ⟨w1, loc1⟩ := st
+    simp only [h1] at h
+    obtain ⟨htr, _, hlos, gs, htoc, hfa, hag⟩ :=
+      appendEntries_spec P hc s ents w _ w1 loc1 hinv (fun h => startOK_linv (hs h)) h1
+    by_cases hw : P.lossless = true ∧ tail ≠ []
+    · simp only [hw, ne_eq, not_false_eq_true, and_self, if_true] at h
+      simp at h
+      subst h
+      have htr2 := write_tr htr.inv tail
+      refine ⟨?_, hlos, gs, by rw [write_toc, htoc], hfa, fun h => (hag h).mono htr2.ext (fun _ h => h)⟩
+      simpa [lossTail, hw.1] using Tr.trans htr htr2
+    · simp only [hw, if_false] at h
+      simp at h
+      subst h
+      refine ⟨?_, hlos, gs, htoc, hfa, hag⟩
+      have : lossTail P tail = [] := by
+        unfold lossTail
+        by_cases hl : P.lossless = true
+        · have : tail = [] := by
+            by_cases ht : tail = []
+            · exact ht
+            · exact absurd ⟨hl, ht⟩ hw
+          simp [this]
+        · simp [hl]
+      simpa [this] using htr
+
+/-- All entries of a list of `AppendTar` calls. -/
+def callEnts : List (List TarEnt × Bytes) → List TarEnt
+  | [] => []
+  | c :: cs => c.1 ++ callEnts cs
+
+/-- The uncompressed bytes a list of `AppendTar` calls produces. -/
+def callStream (P : Params) : List (List TarEnt × Bytes) → Bytes
+  | [] => []
+  | c :: cs => tarStream c.1 ++ lossTail P c.2 ++ callStream P cs
+
+theorem forall2_append {α β : Type} {R : α → β → Prop} {a a' : List α} {b b' : List β}
+    (h1 : Forall2 R a b) (h2 : Forall2 R a' b') : Forall2 R (a ++ a') (b ++ b') := by
+  induction h1 with
+  | nil => simpa using h2
+  | cons hr _ ih => exact Forall2.cons hr ih
+
+theorem appendTars_spec (P : Params) (hc : 0 < P.chunk) (s : Prop) :
+    ∀ (calls : List (List TarEnt × Bytes)) (w w' : W), Inv w → (s → StartOK P w) →
+      (s → P.minChunk = 0 ∨ calls.length ≤ 1) → appendTars P w calls = some w' →
+      Tr w w' (callStream P calls) ∧
+      (P.lossless = true → ∀ e ∈ callEnts calls, e.isToc = false) ∧
+      ∃ gs, w'.toc = w.toc ++ gs.flatten ∧ Forall2 EntryToc (keep (callEnts calls)) gs ∧
+        (s → AllGood w'.view (callEnts calls) gs.flatten) := by
+  intro calls
+  induction calls with
+  | nil =>
+    intro w w' hinv _ _ h
+    simp [appendTars] at h
+    subst h
+    refine ⟨by simpa [callStream] using Tr.rfl' hinv, by simp [callEnts], [], by simp, ?_, ?_⟩
+    · simpa [callEnts] using Forall2.nil
+    · intro _ x hx; simp at hx
+  | cons c cs ih =>
+    intro w w' hinv hs hcalls h
+    obtain ⟨ents, tail⟩ := c
+    simp only [appendTars] at h
+    cases h1 : appendTar P w ents tail with
+    | none => simp [h1] at h
+    | some w1 =>
+      simp only [h1] at h
+      obtain ⟨htr1, hlos1, gs1, htoc1, hfa1, hag1⟩ := appendTar_spec P hc w w1 ents tail s hinv hs h1
+      have hs1 : (s → StartOK P w1) ∨ cs = [] := by
+        by_cases hnil : cs = []
+        · exact Or.inr hnil
+        · left
+          intro h
+          rcases hcalls h with h0 | hlen
+          · exact Or.inl h0
+          · simp at hlen
+            exact absurd hlen hnil
+      rcases hs1 with hs1 | hnil
+      · have hcalls' : s → P.minChunk = 0 ∨ cs.length ≤ 1 := by
+          intro h
+          rcases hcalls h with h0 | hlen
+          · exact Or.inl h0
+          · right; simp at hlen; simp [hlen]
+        obtain ⟨htr, hlos, gs, htoc, hfa, hag⟩ := ih w1 w' htr1.inv hs1 hcalls' h
+        refine ⟨?_, ?_, gs1 ++ gs, ?_, ?_, ?_⟩
+        · simpa [callStream] using Tr.trans htr1 htr
+        · intro hl e he
+          simp [callEnts] at he
+          rcases he with he | he
+          · exact hlos1 hl e he
+          · exact hlos hl e he
+        · rw [htoc, htoc1]; simp
+        · simp only [callEnts, keep_append]
+          exact forall2_append hfa1 hfa
+        · intro h
+          simp only [List.flatten_append, callEnts]
+          apply AllGood.append
+          · exact (hag1 h).mono htr.ext (fun x hx => by simp [hx])
+          · exact (hag h).mono (Ext.refl _) (fun x hx => by simp [hx])
+      · subst hnil
+        simp [appendTars] at h
+        subst h
+        refine ⟨by simpa [callStream] using htr1, ?_, gs1, htoc1, ?_, ?_⟩
+        · intro hl e he
+          simp [callEnts] at he
+          exact hlos1 hl e he
+        · simpa [callEnts] using hfa1
+        · simpa [callEnts] using hag1
+
+theorem length_expect {data : Bytes} {x : TocEnt}
+    (h : x.chunkOffset + effSize x data.length ≤ data.length) :
+    (expect data x).length = effSize x data.length := by
+  unfold expect
+  simp
+  omega
+
+/-- `off` is the first compressed byte of some member. -/
+def IsBoundary (ms : List Member) (off : Nat) : Prop :=
+  ∃ init m rest, ms = init ++ m :: rest ∧ sumClen init = off
+
+/-- The statement of `index_consistent` for a member list and a TOC. -/
+def IndexOK (ms : List Member) (src : List TarEnt) (toc : List TocEnt) : Prop :=
+  ∀ x ∈ toc, x.isData = true → ∃ e ∈ src, e.isToc = false ∧ e.typ = .reg ∧ e.name = x.name ∧
+    specRead ms x e.data.length = some (expect e.data x) ∧ IsBoundary ms x.offset
+
+theorem AllGood.indexOK {ms : List Member} {src : List TarEnt} {toc : List TocEnt}
+    (h : AllGood ms src toc) (hpos : AllPos ms) : IndexOK ms src toc := by
+  intro x hx hd
+  obtain ⟨e, he, h1, h2, h3, h4, _, h6⟩ := h x hx hd
+  refine ⟨e, he, h1, h2, h3.symm, Good.specRead h4 hpos (length_expect h6), ?_⟩
+  obtain ⟨init, m, rest, ha, hs, _⟩ := h4
+  exact ⟨init, m, rest, ha, hs⟩
+
+theorem closeGz_cur (w : W) : (closeGz w).cur = none := by
+  unfold closeGz
+  cases hc : w.cur <;> simp [hc]
+
+theorem closeGz_view_closed (w : W) : (closeGz w).view = (closeGz w).closed := by
+  simp [W.view, closeGz_cur]
+
+theorem closeGz_toc (w : W) : (closeGz w).toc = w.toc := by
+  unfold closeGz
+  cases hc : w.cur <;> simp
+
+
+/-! ## TOC + footer -/
+
+theorem wtf_toc (F : Fmt) (ms : List Member) (off : Nat) (toc : List TocEnt) (tt : Bytes) (a : Nat)
+    (h : Bytes) : (writeTocAndFooter F ms off toc tt a h).toc = toc := by
+  cases F <;> rfl
+
+theorem wtf_ext (F : Fmt) (ms : List Member) (off : Nat) (toc : List TocEnt) (tt : Bytes) (a : Nat)
+    (h : Bytes) : Ext ms (writeTocAndFooter F ms off toc tt a h).members := by
+  cases F
+  · exact Ext.append _ _
+  · exact Ext.append _ _
+  · exact Ext.refl _
+
+theorem wtf_pos (F : Fmt) (ms : List Member) (off : Nat) (toc : List TocEnt) (tt : Bytes) (a : Nat)
+    (h : Bytes) (hp : AllPos ms) : AllPos (writeTocAndFooter F ms off toc tt a h).members := by
+  cases F
+  · intro m hm
+    simp [writeTocAndFooter] at hm
+    rcases hm with hm | hm
+    · exact hp m hm
+    · subst hm; simp
+  · intro m hm
+    simp [writeTocAndFooter] at hm
+    rcases hm with hm | hm
+    · exact hp m hm
+    · subst hm; simp; omega
+  · exact hp
+
+/-- What the TOC adds to the decompressed stream: the TOC tar entry for gzip, nothing otherwise. -/
+def tocAddition (F : Fmt) (tt : Bytes) : Bytes :=
+  match F with
+  | .gzip => tt
+  | _ => []
+
+theorem wtf_stream (F : Fmt) (ms : List Member) (off : Nat) (toc : List TocEnt) (tt : Bytes) (a : Nat)
+    (h : Bytes) : streamOf (writeTocAndFooter F ms off toc tt a h).members = streamOf ms ++ tocAddition F tt := by
+  cases F <;> simp [writeTocAndFooter, tocAddition]
+
+theorem wtf_hashed (F : Fmt) (ms : List Member) (off : Nat) (toc : List TocEnt) (tt : Bytes) (a : Nat)
+    (h : Bytes) : (writeTocAndFooter F ms off toc tt a h).hashed = h ++ tocAddition F tt := by
+  cases F <;> simp [writeTocAndFooter, tocAddition]
+
+/-- The footer's TOC offset is where the data members end (zstd: plus the 8-byte frame header),
+and the blob is the members followed by a footer of the format's fixed size. -/
+theorem wtf_layout (F : Fmt) (ms : List Member) (toc : List TocEnt) (tt : Bytes) (a : Nat) (h : Bytes) :
+    let b := writeTocAndFooter F ms (sumClen ms) toc tt a h
+    b.size = sumClen b.members + F.footerLen ∧
+    (F ≠ .external → b.tocOff = some (sumClen ms + F.tocSkip)) ∧ (F = .external → b.tocOff = none) := by
+  cases F <;> simp [writeTocAndFooter, Fmt.footerLen, Fmt.tocSkip]
+
+/-! ## combine -/
+
+theorem rebase_name (off : Nat) (x : TocEnt) : (rebase off x).name = x.name := by
+  unfold rebase; split <;> rfl
+theorem rebase_typ (off : Nat) (x : TocEnt) : (rebase off x).typ = x.typ := by
+  unfold rebase; split <;> rfl
+theorem rebase_size (off : Nat) (x : TocEnt) : (rebase off x).size = x.size := by
+  unfold rebase; split <;> rfl
+theorem rebase_chunkOffset (off : Nat) (x : TocEnt) : (rebase off x).chunkOffset = x.chunkOffset := by
+  unfold rebase; split <;> rfl
+theorem rebase_chunkSize (off : Nat) (x : TocEnt) : (rebase off x).chunkSize = x.chunkSize := by
+  unfold rebase; split <;> rfl
+theorem rebase_innerOffset (off : Nat) (x : TocEnt) : (rebase off x).innerOffset = x.innerOffset := by
+  unfold rebase; split <;> rfl
+theorem rebase_effSize (off : Nat) (x : TocEnt) (t : Nat) : effSize (rebase off x) t = effSize x t := by
+  simp [effSize, rebase_chunkSize, rebase_chunkOffset]
+theorem rebase_isData (off : Nat) (x : TocEnt) : (rebase off x).isData = x.isData := by
+  simp [TocEnt.isData, rebase_typ, rebase_size]
+theorem rebase_expect (off : Nat) (x : TocEnt) (d : Bytes) : expect d (rebase off x) = expect d x := by
+  simp [expect, rebase_effSize, rebase_chunkOffset]
+
+theorem rebase_data {off : Nat} {x : TocEnt} (h : x.isData = true) :
+    rebase off x = { x with offset := x.offset + off } := by
+  unfold rebase
+  have : (x.typ = .reg ∧ 0 < x.size) ∨ x.typ = .chunk := by
+    simpa [TocEnt.isData] using h
+  simp [this]
+
+theorem rebase_nodata {off : Nat} {x : TocEnt} (h : x.isData = false) : rebase off x = x := by
+  unfold rebase
+  have : ¬ ((x.typ = .reg ∧ 0 < x.size) ∨ x.typ = .chunk) := by
+    intro hc
+    have : x.isData = true := by simpa [TocEnt.isData] using hc
+    simp [h] at this
+  simp [this]
+
+theorem group_rebase (off : Nat) {name : String} {total : Nat} :
+    ∀ {first : Bool} {pos : Nat} {g : List TocEnt}, Group name total first pos g →
+      Group name total first pos (g.map (rebase off)) := by
+  intro first pos g
+  induction g generalizing first pos with
+  | nil => intro h; simpa [Group] using h
+  | cons e es ih =>
+    intro h
+    simp only [Group] at h
+    obtain ⟨h1, h2, h3, h4, h5, h6, h7⟩ := h
+    simp only [List.map_cons, Group, rebase_name, rebase_typ, rebase_size, rebase_chunkOffset, rebase_effSize]
+    exact ⟨h1, h2, h3, h4, h5, h6, ih h7⟩
+
+theorem entryToc_rebase (off : Nat) {e : TarEnt} {g : List TocEnt} (h : EntryToc e g) :
+    EntryToc e (g.map (rebase off)) := by
+  obtain ⟨hs, h⟩ := h
+  refine ⟨hs, ?_⟩
+  by_cases hr : e.typ = .reg ∧ e.data ≠ []
+  · simp only [hr, ne_eq, not_false_eq_true, and_self, if_true] at h ⊢
+    exact group_rebase off h
+  · simp only [hr, if_false] at h ⊢
+    subst h
+    have : (⟨e.name, e.typ, 0, 0, 0, 0, 0⟩ : TocEnt).isData = false := by
+      cases hk : e.typ <;> simp_all [TocEnt.isData, supported]
+    simp [rebase_nodata this]
+
+theorem forall2_entryToc_rebase (off : Nat) {es : List TarEnt} {gs : List (List TocEnt)}
+    (h : Forall2 EntryToc es gs) : Forall2 EntryToc es (gs.map (List.map (rebase off))) := by
+  induction h with
+  | nil => exact Forall2.nil
+  | cons hr _ ih => exact Forall2.cons (entryToc_rebase off hr) ih
+
+/-- What a sub-blob writer handed to `closeWithCombine` must satisfy, relative to its own part. -/
+structure PartOK (w : W) (p : List TarEnt) : Prop where
+  inv : Inv w
+  stream : streamOf w.view = tarStream p
+  groups : ∃ gs, w.toc = gs.flatten ∧ Forall2 EntryToc (keep p) gs
+  good : AllGood w.view p w.toc
+
+theorem combineGo_spec :
+    ∀ (ws : List W) (parts : List (List TarEnt)) (off : Nat) (pre : List Member),
+      Forall2 PartOK ws parts → sumClen pre = off →
+      AllPos (combineGo ws off).1 ∧
+      (combineGo ws off).2.2 = off + sumClen (combineGo ws off).1 ∧
+      streamOf (combineGo ws off).1 = tarStream parts.flatten ∧
+      (∃ gs, (combineGo ws off).2.1 = gs.flatten ∧ Forall2 EntryToc (keep parts.flatten) gs) ∧
+      AllGood (pre ++ (combineGo ws off).1) parts.flatten (combineGo ws off).2.1 := by
+  intro ws parts off pre h
+  induction h generalizing off pre with
+  | nil =>
+    intro _
+    refine ⟨by intro m hm; simp [combineGo] at hm, by simp [combineGo], by simp [combineGo, tarStream],
+      ⟨[], by simp [combineGo], by simpa using Forall2.nil⟩, ?_⟩
+    intro x hx; simp [combineGo] at hx
+  | @cons w p ws parts hw _ ih =>
+    intro hpre
+    have hcl := closeGz_tr hw.inv
+    have hview := closeGz_view_closed w
+    have hcw : (closeGz w).cwN = sumClen (closeGz w).closed := by rw [hcl.inv.cw, hview]
+    obtain ⟨ih1, ih2, ih3, ⟨gs', ih4, ih5⟩, ih6⟩ :=
+      ih (off + (closeGz w).cwN) (pre ++ (closeGz w).closed) (by simp [hpre, hcw])
+    obtain ⟨gs, hgs, hfa⟩ := hw.groups
+    simp only [combineGo]
+    refine ⟨?_, ?_, ?_, ?_, ?_⟩
+    · intro m hm
+      simp at hm
+      rcases hm with hm | hm
+      · exact hcl.inv.pos m hm
+      · exact ih1 m hm
+    · rw [ih2]; simp [hcw]; omega
+    · have : streamOf (closeGz w).closed = tarStream p := by
+        rw [← hview, hcl.stream, hw.stream]; simp
+      simp [this, ih3, tarStream_append]
+    · refine ⟨gs.map (List.map (rebase off)) ++ gs', ?_, ?_⟩
+      · rw [closeGz_toc, hgs, ih4]; simp [List.map_flatten]
+      · simp only [List.flatten_cons, keep_append]
+        exact forall2_append (forall2_entryToc_rebase off hfa) ih5
+    · apply AllGood.append
+      · intro x hx hd
+        simp [closeGz_toc] at hx
+        obtain ⟨x0, hx0, rfl⟩ := hx
+        rw [rebase_isData] at hd
+        obtain ⟨e, he, h1, h2, h3, h4, h5, h6⟩ := hw.good x0 hx0 hd
+        have h4' : Good (closeGz w).closed x0 (expect e.data x0) := by
+          rw [← hview]; exact Good.mono h4 hcl.ext
+        have := Good.shift h4' pre (combineGo ws (off + (closeGz w).cwN)).1
+        refine ⟨e, by simp [he], h1, h2, by rw [rebase_name]; exact h3, ?_, ?_, ?_⟩
+        · rw [rebase_expect, rebase_data hd]
+          subst hpre
+          simpa [List.append_assoc] using this
+        · rw [rebase_effSize]; exact h5
+        · rw [rebase_effSize, rebase_chunkOffset]; exact h6
+      · have := ih6
+        rw [List.append_assoc] at this
+        exact this.mono (Ext.refl _) (fun x hx => by simp [hx])
+
+/-! ## divideEntries -/
+
+theorem divideGo_flatten (unit : Nat) :
+    ∀ (es cur : List TarEnt) (o n : Nat), (divideGo unit es cur o n).flatten = cur ++ es := by
+  intro es
+  induction es with
+  | nil => intro cur o n; simp [divideGo]
+  | cons e es ih =>
+    intro cur o n
+    simp only [divideGo]
+    split
+    · simp [ih]
+    · simp [ih]
+
+theorem divideGo_ne_nil (unit : Nat) :
+    ∀ (es cur : List TarEnt) (o n : Nat), divideGo unit es cur o n ≠ [] := by
+  intro es
+  induction es with
+  | nil => intro cur o n; simp [divideGo]
+  | cons e es ih =>
+    intro cur o n
+    simp only [divideGo]
+    split
+    · simp
+    · exact ih _ _ _
+
+/-! ## Build -/
+
+theorem partOK_of_appendTar (P : Params) (hc : 0 < P.chunk) (f c : List Nat) (p : List TarEnt) (w : W)
+    (h : appendTar P { orcF := f, orcC := c } p [] = some w) : PartOK w p := by
+  have hinv := inv_fresh f c
+  obtain ⟨htr, _, gs, htoc, hfa, hag⟩ :=
+    appendTar_spec P hc _ w p [] True hinv (fun _ => Or.inr ⟨rfl, rfl⟩) h
+  refine ⟨htr.inv, ?_, ⟨gs, by simpa using htoc, hfa⟩, ?_⟩
+  · have := htr.stream
+    simpa [W.view, lossTail] using this
+  · have : w.toc = gs.flatten := by simpa using htoc
+    rw [this]; exact hag trivial
+
+theorem buildParts_spec (P : Params) (hc : 0 < P.chunk) :
+    ∀ (parts : List (List TarEnt)) (f c : List Nat) (ws : List W),
+      buildParts P parts f c = some ws → Forall2 PartOK ws parts := by
+  intro parts
+  induction parts with
+  | nil =>
+    intro f c ws h
+    simp [buildParts] at h
+    subst h
+    exact Forall2.nil
+  | cons p ps ih =>
+    intro f c ws h
+    simp only [buildParts] at h
+    cases h1 : appendTar P { orcF := f, orcC := c } p [] with
+    | none => simp [h1] at h
+    | some w =>
+      simp only [h1] at h
+      cases h2 : buildParts P ps (closeGz w).orcF (closeGz w).orcC with
+      | none => simp [h2] at h
+      | some ws' =>
+        simp only [h2] at h
+        simp at h
+        subst h
+        exact Forall2.cons (partOK_of_appendTar P hc f c p w h1) (ih _ _ _ h2)
+
+
+/-! ## The checker -/
+
+theorem checkChunk_true {ms : List Member} {e : TocEnt} {f : FileC} {pos : Nat}
+    (h : checkChunk ms e f pos = true) :
+    e.name = f.name ∧ e.chunkOffset = pos ∧ 0 < effSize e f.content.length ∧
+    pos + effSize e f.content.length ≤ f.content.length ∧
+    specRead ms e f.content.length = some (expect f.content e) := by
+  simpa [checkChunk, and_assoc] using h
+
+/-- The files the remaining TOC may still refer to. -/
+def curFiles (files : List FileC) (cur : Option (FileC × Nat)) : List FileC :=
+  match cur with
+  | none => files
+  | some (f, _) => f :: files
+
+theorem checkGo_sound (ms : List Member) :
+    ∀ (toc : List TocEnt) (files : List FileC) (cur : Option (FileC × Nat)),
+      checkGo ms toc files cur = true →
+      ∀ e ∈ toc, e.isData = true → ∃ f ∈ curFiles files cur, f.name = e.name ∧
+        specRead ms e f.content.length = some (expect f.content e) ∧
+        e.chunkOffset + effSize e f.content.length ≤ f.content.length := by
+  intro toc
+  induction toc with
+  | nil => intro files cur _ e he; simp at he
+  | cons x es ih =>
+    intro files cur h e he hd
+    unfold checkGo at h
+    by_cases hreg : x.typ = .reg
+    · simp only [hreg, if_true] at h
+      cases files with
+      | nil => simp at h
+      | cons f fs =>
+        simp only [Bool.and_eq_true, decide_eq_true_eq] at h
+        obtain ⟨⟨⟨_, hname⟩, hsize⟩, hrest⟩ := h
+        by_cases hz : x.size = 0
+        · simp only [hz, if_true] at hrest
+          simp at he
+          rcases he with rfl | he
+          · simp [TocEnt.isData, hreg, hz] at hd
+          · obtain ⟨f', hf', r⟩ := ih fs none hrest e he hd
+            refine ⟨f', ?_, r⟩
+            cases cur with
+            | none => simp [curFiles] at hf' ⊢; exact Or.inr hf'
+            | some c => simp [curFiles] at hf' ⊢; exact Or.inr (Or.inr hf')
+        · simp only [hz, if_false, Bool.and_eq_true] at hrest
+          obtain ⟨hck, hrest⟩ := hrest
+          obtain ⟨c1, c2, c3, c4, c5⟩ := checkChunk_true hck
+          simp at he
+          rcases he with rfl | he
+          · refine ⟨f, ?_, c1.symm, c5, by omega⟩
+            cases cur with
+            | none => simp [curFiles]
+            | some c => simp [curFiles]
+          · obtain ⟨f', hf', r⟩ := ih fs _ hrest e he hd
+            refine ⟨f', ?_, r⟩
+            cases cur with
+            | none => simp [curFiles] at hf' ⊢; exact hf'
+            | some c =>
+              simp [curFiles] at hf' ⊢
+              rcases hf' with hf' | hf'
+              · exact Or.inr (Or.inl hf')
+              · exact Or.inr (Or.inr hf')
+    · simp only [hreg, if_false] at h
+      by_cases hch : x.typ = .chunk
+      · simp only [hch, if_true] at h
+        cases cur with
+        | none => simp at h
+        | some c =>
+          obtain ⟨f, pos⟩ := c
+          simp only [Bool.and_eq_true] at h
+          obtain ⟨hck, hrest⟩ := h
+          obtain ⟨c1, c2, c3, c4, c5⟩ := checkChunk_true hck
+          simp at he
+          rcases he with rfl | he
+          · exact ⟨f, by simp [curFiles], c1.symm, c5, by omega⟩
+          · obtain ⟨f', hf', r⟩ := ih files _ hrest e he hd
+            exact ⟨f', by simpa [curFiles] using hf', r⟩
+      · simp only [hch, if_false, Bool.and_eq_true] at h
+        simp at he
+        rcases he with rfl | he
+        · simp [TocEnt.isData, hreg, hch] at hd
+        · obtain ⟨f', hf', r⟩ := ih files none h.2 e he hd
+          refine ⟨f', ?_, r⟩
+          cases cur with
+          | none => simpa [curFiles] using hf'
+          | some c => simp [curFiles] at hf' ⊢; exact Or.inr hf'
+
+
+/-! ## Whole runs -/
+
+theorem effChunk_pos (c : Int) : 0 < effChunk c := by
+  unfold effChunk
+  split
+  · omega
+  · omega
+
+theorem divideEntries_spec {n : Nat} {es : List TarEnt} {parts : List (List TarEnt)}
+    (h : divideEntries n es = some parts) : n ≠ 0 ∧ parts.flatten = es ∧ parts ≠ [] := by
+  unfold divideEntries at h
+  by_cases hn : n = 0
+  · simp [hn] at h
+  · simp only [hn, if_false] at h
+    simp at h
+    subst h
+    exact ⟨hn, by simp [divideGo_flatten], divideGo_ne_nil _ _ _ _ _⟩
+
+/-- Everything `Build` does after sorting, in one statement. -/
+theorem build_spec {F : Fmt} {chunk minChunk workers : Nat} {ents : List TarEnt}
+    {tocTar : List TocEnt → Bytes} {orcF orcC : List Nat} {a : Nat} {b : Blob} (hc : 0 < chunk)
+    (h : build F chunk minChunk workers ents tocTar orcF orcC a = some b) :
+    ∃ parts ws, parts.flatten = ents ∧ Forall2 PartOK ws parts ∧
+      (0 < minChunk → parts = [ents]) ∧ (minChunk = 0 → divideEntries workers ents = some parts) ∧
+      b = writeTocAndFooter F (combineGo ws 0).1 (combineGo ws 0).2.2 (combineGo ws 0).2.1
+            (tocTar (combineGo ws 0).2.1) a [] := by
+  unfold build at h
+  simp only at h
+  cases hp : (if 0 < minChunk then some [ents] else divideEntries workers ents) with
+  | none => simp [hp] at h
+  | some parts =>
+    simp only [hp] at h
+    cases hw : buildParts ⟨chunk, minChunk, landmarks, false⟩ parts orcF orcC with
+    | none => simp [hw] at h
+    | some ws =>
+      simp only [hw] at h
+      simp at h
+      have hok := buildParts_spec ⟨chunk, minChunk, landmarks, false⟩ hc parts orcF orcC ws hw
+      refine ⟨parts, ws, ?_, hok, ?_, ?_, h.symm⟩
+      · by_cases hm : 0 < minChunk
+        · simp [hm] at hp; subst hp; simp
+        · simp [hm] at hp; exact (divideEntries_spec hp).2.1
+      · intro hm; simp [hm] at hp; exact hp.symm
+      · intro hm; simp [hm] at hp; exact hp
+
+/-- Everything a Writer run does.  `s` switches on the part that needs the `prevOffset` locals to
+be right (`MinChunkSize = 0` or a single `AppendTar` call). -/
+theorem writerRun_spec {P : Params} {F : Fmt} {calls : List (List TarEnt × Bytes)}
+    {tocTar : List TocEnt → Bytes} {orcF orcC : List Nat} {a : Nat} {b : Blob} (hc : 0 < P.chunk)
+    (s : Prop) (hs : s → P.minChunk = 0 ∨ calls.length ≤ 1)
+    (h : writerRun P F calls tocTar orcF orcC a = some b) :
+    ∃ ms, AllPos ms ∧ streamOf ms = callStream P calls ∧
+      b = writeTocAndFooter F ms (sumClen ms) b.toc (tocTar b.toc) a (streamOf ms) ∧
+      (P.lossless = true → ∀ e ∈ callEnts calls, e.isToc = false) ∧
+      (∃ gs, b.toc = gs.flatten ∧ Forall2 EntryToc (keep (callEnts calls)) gs) ∧
+      (s → AllGood ms (callEnts calls) b.toc) := by
+  unfold writerRun at h
+  cases hw : appendTars P { orcF := orcF, orcC := orcC } calls with
+  | none => simp [hw] at h
+  | some w =>
+    simp only [hw] at h
+    simp at h
+    obtain ⟨htr, hlos, gs, htoc, hfa, hag⟩ :=
+      appendTars_spec P hc s calls _ w (inv_fresh orcF orcC) (fun _ => Or.inr ⟨rfl, rfl⟩) hs hw
+    have hcl := closeGz_tr htr.inv
+    have hview := closeGz_view_closed w
+    have htoc' : w.toc = gs.flatten := by simpa using htoc
+    have hbtoc : b.toc = w.toc := by rw [← h]; simp [close, wtf_toc, closeGz_toc]
+    refine ⟨(closeGz w).closed, hcl.inv.pos, ?_, ?_, hlos, ⟨gs, by rw [hbtoc, htoc'], hfa⟩, ?_⟩
+    · rw [← hview, hcl.stream, htr.stream]; simp [W.view]
+    · rw [← h, hbtoc]
+      simp only [close, closeGz_toc]
+      rw [hcl.inv.cw, hcl.inv.hash, hview]
+    · intro hh
+      rw [hbtoc, htoc', ← hview]
+      exact (hag hh).mono hcl.ext (fun _ h => h)
 
 end SV.Writer
